@@ -198,6 +198,63 @@ def rule_decay(ctx) -> None:
               "(clamp_min=0.5: one observation stores 0.5, one tick leaves 0.354 < clamp_min)")
 
 
+def _arrow_pair(e: ast.AST) -> Optional[Tuple[str, str]]:
+    """f"{a}→{b}" -> (text of a, text of b)"""
+    if isinstance(e, ast.JoinedStr) and len(e.values) == 3 and isinstance(e.values[0], ast.FormattedValue) and isinstance(e.values[2], ast.FormattedValue) \
+            and isinstance(e.values[1], ast.Constant) and e.values[1].value == "\u2192":
+        return src(e.values[0].value), src(e.values[2].value)
+    return None
+
+
+def rule_key_siblings(ctx) -> None:
+    """every place in the engine that builds a GEL edge key (f"{a}→{b}") orders its endpoints like gel._edge_key: either
+    `f"{a}→{b}" if a <= b else f"{b}→{a}"`, or a and b were assigned from the ordered / swapped pair under `x <= y`.
+    The snapshot writer and loader re-key edges; a non-canonical key there stores a restored pair under a key that
+    _edge_key never looks up, and the next observation creates a second edge for the pair."""
+    n = 0
+    for fn in ctx.prog.all_funcs("clematis.engine."):
+        pm = None
+        for x in walk_no_defs(fn.node):
+            ap = _arrow_pair(x)
+            if ap is None:
+                continue
+            n += 1
+            if pm is None:
+                pm = ctx.prog.parents(fn.node)
+            a, b = ap
+            ok = False
+            par = pm.get(id(x))
+            if isinstance(par, ast.IfExp) and isinstance(par.test, ast.Compare) and len(par.test.ops) == 1 and isinstance(par.test.ops[0], (ast.LtE, ast.Lt)):
+                l, r = src(par.test.left), src(par.test.comparators[0])
+                other = _arrow_pair(par.orelse if x is par.body else par.body)
+                if other is not None:
+                    first, second = (ap, other) if x is par.body else (other, ap)
+                    ok = first == (l, r) and second == (r, l)
+            if not ok:
+                # gel._edge_key idiom: `if sa <= sb: src, dst = sa, sb  else: src, dst = sb, sa`
+                cfg = ctx.cfg(fn)
+                rd = ctx.rd(fn)
+                nodes = cfg.node_containing(x)
+                if nodes:
+                    da = [d for d in rd.reaching(a, nodes[0]) if d.kind != "mutate"] if a.isidentifier() else []
+                    db = [d for d in rd.reaching(b, nodes[0]) if d.kind != "mutate"] if b.isidentifier() else []
+                    if len(da) == 2 and len(db) == 2:
+                        vals = sorted((src(d.value), src(e.value)) for d, e in zip(sorted(da, key=lambda d: d.node.id), sorted(db, key=lambda d: d.node.id)))
+                        conds = [g for d in da for g in cfg.guards(d.node)]
+                        lt = [t for t, pol, _ in conds if isinstance(t, ast.Compare) and len(t.ops) == 1 and isinstance(t.ops[0], (ast.LtE, ast.Lt))]
+                        if lt:
+                            l, r = src(lt[0].left), src(lt[0].comparators[0])
+                            t_def = [d for d in da if any(pol for tt, pol, _ in cfg.guards(d.node) if tt is lt[0])]
+                            f_def = [d for d in da if any(not pol for tt, pol, _ in cfg.guards(d.node) if tt is lt[0])]
+                            tb = [d for d in db if any(pol for tt, pol, _ in cfg.guards(d.node) if tt is lt[0])]
+                            fb = [d for d in db if any(not pol for tt, pol, _ in cfg.guards(d.node) if tt is lt[0])]
+                            if t_def and f_def and tb and fb:
+                                ok = (src(t_def[0].value), src(tb[0].value)) == (l, r) and (src(f_def[0].value), src(fb[0].value)) == (r, l)
+            ctx.check(ok, "C18.KEY", f"{fn.qual}/arrow-key-canonical:{a}-{b}", fn.loc(x), f"`{src(x)}` is built from endpoints ordered by `<=` (same canonical form as gel._edge_key)",
+                      f"`{src(x)}` joins its endpoints in the order given: a record whose src > dst is stored under a key gel._edge_key never produces, so the pair gets a second edge on the next observation")
+    ctx.floor("C18.KEY", "edge-key constructors in the engine", n, 1)
+
+
 def rule_key(ctx) -> None:
     m = ctx.prog.module(GEL)
     n_ins = 0
@@ -462,6 +519,7 @@ def run(ctx) -> None:
     rule_bound(ctx)
     rule_decay(ctx)
     rule_key(ctx)
+    rule_key_siblings(ctx)
     rule_orderins(ctx)
     rule_scope(ctx)
     rule_gate(ctx)
